@@ -15,6 +15,10 @@
    execution counters, running gauge, identity of handed-back jobs, results/panics through Proactor::pop
    on both drivers, hang watchdog, probe dispatch after all workers retired).
 3. harness bin pool_stress: free-running seeded stress with recv_timeout 1-5 ms, same oracle.
+4. harness bin pool_disp: dispatcher-level leg - the two dispatching parties of the model are bound to
+   compio-dispatcher (Dispatcher::dispatch_blocking and a worker runtime's spawn_blocking): every order of
+   submit-via-handle / submit-via-worker / release over gate jobs; the Dispatcher handle and its worker runtimes
+   must share ONE pool (gauge <= limit, hand-back while saturated, exactly once).
 """
 import collections
 import concurrent.futures
@@ -395,6 +399,54 @@ def stress(run, scale, seed_):
     return parse_out(out, err, "pool_stress")
 
 
+def dispatcher_programs(tier):
+    """Dispatcher-level leg: programs over {Sh = submit via Dispatcher::dispatch_blocking, Sw = submit via a worker
+    runtime's spawn_blocking, Ro/Rn = release the oldest/newest running job}: every maximal sequence of the job-level
+    abstraction of the model with two dispatching parties (r running <= L, p worker submissions waiting in the retry
+    loop; Sh while r = L is handed back, Sw while r = L waits, a release lets one waiting submission in)."""
+    def progs(L, N):
+        out = []
+
+        def rec(r, p, n, seq):
+            if n == N and r == 0 and p == 0:
+                out.append(seq)
+                return
+            if n < N:
+                rec(r + 1 if r < L else r, p, n + 1, seq + ["Sh"])
+                if r < L:
+                    rec(r + 1, p, n + 1, seq + ["Sw"])
+                else:
+                    rec(r, p + 1, n + 1, seq + ["Sw"])
+            if r > 0:
+                for ev in (["Ro", "Rn"] if r >= 2 else ["Ro"]):
+                    r2, p2 = r - 1, p
+                    if p2 > 0:
+                        p2, r2 = p2 - 1, r2 + 1
+                    rec(r2, p2, n, seq + [ev])
+        rec(0, 0, 0, [])
+        return out
+    shapes = [(1, 3), (2, 3)] if tier == "quick" else [(1, 2), (1, 3), (1, 4), (2, 3), (2, 4)]
+    out = []
+    for (L, N) in shapes:
+        for evs in progs(L, N):
+            for w in (1, 2):
+                for drv in ("iour", "poll"):
+                    out.append({"id": len(out) + 1, "limit": L, "workers": w, "driver": drv, "njobs": N, "events": evs})
+    return out
+
+
+def dispatcher_leg(run, progs, tmp, what="dispatcher", extra=()):
+    path = os.path.join(tmp, what + ".jsonl")
+    with open(path, "w") as f:
+        for p in progs:
+            f.write(json.dumps(p) + "\n")
+    rc, out, err = vlib.run_bin("pool_disp", [path, "--par", 8] + list(extra), timeout=3000)
+    summ, details = parse_out(out, err, "pool_disp")
+    if summ["cases"] != len(progs) and not summ.get("aborted"):
+        raise vlib.ToolError("pool_disp ran %d of %d programs" % (summ["cases"], len(progs)))
+    return summ, details
+
+
 def negative_control(run, scheds, tmp):
     """corrupt expectations of a few schedules: the binding must notice (mismatch), else the comparison is vacuous"""
     bad = []
@@ -446,9 +498,11 @@ def run(run, tier, replay_path):
         if replay_path:
             obj = json.load(open(replay_path))
             case = obj["replay"]
-            vlib.cargo_build("hpool", ["pool_replay", "pool_stress"])
+            vlib.cargo_build("hpool", ["pool_replay", "pool_stress", "pool_disp"])
             run.cov["states"] = run.cov["transitions"] = 1
-            if case.get("stress"):
+            if case.get("dispatcher_leg"):
+                summ, details = dispatcher_leg(run, [case], tmp, "one")
+            elif case.get("stress"):
                 summ, details = stress(run, 1, case.get("seed", vlib.seed()))
             else:
                 summ, details = replay(run, [case], tmp, "one")
@@ -469,7 +523,7 @@ def run(run, tier, replay_path):
             scheds = f2.result()
         phase("schedule generation")
         # 3. replay on the real pool
-        vlib.cargo_build("hpool", ["pool_replay", "pool_stress"])
+        vlib.cargo_build("hpool", ["pool_replay", "pool_stress", "pool_disp"])
         phase("harness build")
         summ, details = replay(run, scheds, tmp, "schedules")
         drift = classify(run, summ, details, "steered replay")
@@ -499,6 +553,24 @@ def run(run, tier, replay_path):
         run.note("stress_jobs", ssum["steps"])
         run.note("stress_stats", ssum.get("stats", [])[:16])
         phase("stress")
+        # 4b. dispatcher-level leg: the Dispatcher handle and its worker runtimes share ONE pool
+        progs = dispatcher_programs(tier)
+        dsum, ddet = dispatcher_leg(run, progs, tmp)
+        classify(run, dsum, ddet, "dispatcher leg")
+        run.add_traces(dsum["cases"])
+        run.note("dispatcher_programs", dsum["cases"])
+        run.note("dispatcher_program_steps", dsum["steps"])
+        if dsum.get("aborted"):
+            vlib.log("NOTE: the dispatcher leg stopped early: a dispatcher could not be shut down (see the violations)")
+        # its negative control: the handle given a pool of its own (the defect this leg exists for) must be objected to
+        ctl_progs = [p for p in progs if p["events"].count("Sh") >= 1 and p["events"].count("Sw") >= 1][:60]
+        csum, _ = dispatcher_leg(run, ctl_progs, tmp, "dispatcher_control", extra=["--control-split"])
+        kinds = {p["sig"].get("kind") for p in csum["problems"] if p["type"] == "contract"}
+        if not ({"limit-exceeded", "accepted-while-saturated"} <= kinds):
+            raise vlib.ToolError("dispatcher negative control: a handle with a pool of its own was not objected to (%s)" % sorted(kinds))
+        run.note("dispatcher_negative_control", "handle with a separate pool: %s reported in %d control programs" %
+                 (sorted(kinds), csum["cases"]))
+        phase("dispatcher leg (%d)" % dsum["cases"])
         # 5. negative control
         negative_control(run, scheds, tmp)
         phase("negative control")
